@@ -22,7 +22,7 @@ from fractions import Fraction
 import pysmt.logics as PL
 import pysmt.operators as op
 from pysmt.environment import get_env
-from pysmt.exceptions import NoLogicAvailableError, UndefinedLogicError
+from pysmt.exceptions import NoLogicAvailableError, UndefinedLogicError, NoSolverAvailableError
 from pysmt.typing import BOOL, INT, REAL, STRING, BVType, ArrayType, FunctionType
 
 import common
@@ -157,7 +157,7 @@ def show_logic(l):
 def outcome(fn, *a):
     try:
         r = fn(*a)
-    except (NoLogicAvailableError, UndefinedLogicError, IndexError, AssertionError) as e:
+    except (NoLogicAvailableError, UndefinedLogicError, NoSolverAvailableError, IndexError, AssertionError) as e:
         return ("err", type(e).__name__)
     return ("ok", r)
 
@@ -740,6 +740,91 @@ def selection(ctx, T, lean_ok):
         b.run(ctx, "selection")
 
 
+
+# ------------------------------------------------------------------------------------------------- factory
+def factory_cases(ctx, T, lean_ok):
+    """Factory._get_solver_class on harness-registered solver classes: K against Impl/FactorySelect.lean, S: the
+    logic handed to the solver is one of ITS logics, above the requested one, and closest"""
+    r = ctx.rng
+    fac = get_env().factory
+    tab = T.table
+    b = Batch()
+    n = 400 if ctx.tier == "quick" else 4000
+    for i in range(n):
+        ns = r.choice([1, 2, 2, 3, 4])
+        names = ["s%d" % k for k in range(ns)]
+        classes = {}
+        for nm in names:
+            base = r.choice(tab)
+            pool = [l for l in tab if l <= base] if r.random() < 0.5 else tab
+            lst = r.sample(pool, min(len(pool), r.choice([1, 2, 3, 4, 6])))
+            classes[nm] = type("C13Stub_" + nm, (), {"LOGICS": lst})
+        prefs = [nm for nm in r.sample(names, len(names)) if r.random() < 0.85]
+        default = r.choice(tab)
+        name = r.choice([None, None, r.choice(names), "unknown"])
+        logic = r.choice([None, r.choice(tab), r.choice(tab),
+                          raw_logic("Requested", r.random() < 0.6, tbits(r.choice(tab).theory))])
+        fac.preferences["c13-stub"] = prefs
+        try:
+            o = outcome(lambda: fac._get_solver_class(solver_list=classes, solver_type="c13-stub",
+                                                     default_logic=default, name=name, logic=logic))
+        finally:
+            del fac.preferences["c13-stub"]
+        rp = {"kind": "factory", "default": list(lkey(default)), "name": name,
+              "logic": list(lkey(logic)) if logic is not None else None, "prefs": prefs,
+              "solvers": [[nm, [list(lkey(l)) for l in classes[nm].LOGICS]] for nm in names]}
+        if o[0] == "ok":
+            cls, L = o[1]
+            sname = [nm for nm in names if classes[nm] is cls]
+            why = None
+            if not sname:
+                why = "returns a class that is not in the solver list"
+            elif not any(L is l for l in cls.LOGICS):
+                why = "returns a logic that is not one of the solver's LOGICS"
+            elif name is not None and sname[0] != name:
+                why = "returns another solver than the named one"
+            elif logic is not None:
+                if not (logic <= L):
+                    why = "hands the solver %s, which is not above the requested logic" % L.name
+                elif uncovered(tbits(L.theory), tbits(logic.theory)) or (not logic.quantifier_free and L.quantifier_free):
+                    why = "hands the solver %s, which cannot express the requested logic" % L.name
+                elif [k for k in cls.LOGICS if logic <= k and k <= L and not same(k, L)]:
+                    why = "hands the solver %s although a closer supported logic exists" % L.name
+            if why:
+                ctx.report_s({"oracle": "factory", "axiom": "spec"},
+                             "_get_solver_class(name=%s, logic=%s) %s" % (name, show_logic(logic) if logic else None, why), rp)
+            exp = "ok %s %s %d %s" % (sname[0] if sname else "?", L.name, 1 if L.quantifier_free else 0, tbits(L.theory))
+        else:
+            exp = "err " + o[1]
+        line = "factory %s %s %s %d %s %d %s" % (
+            T.tok(default), name if name is not None else "-", T.tok(logic) if logic is not None else "-",
+            len(prefs), " ".join(prefs), ns,
+            " ".join("%s %d %s" % (nm, len(classes[nm].LOGICS), " ".join(T.tok(l) for l in classes[nm].LOGICS))
+                     for nm in names))
+        b.add(" ".join(line.split()), exp)
+        ctx.case(("factory", i) if o[0] == "ok" else None)
+        ctx.count("factory_" + (o[1] if o[0] == "err" else "ok"))
+    if lean_ok:
+        b.run(ctx, "factory")
+
+
+def quantified_version(ctx, T):
+    """Logic.get_quantified_version: a quantified logic above the receiver (or NoLogicAvailableError)"""
+    for l in T.table:
+        o = outcome(l.get_quantified_version)
+        ctx.case(("qv", l.name))
+        if o[0] == "err":
+            if o[1] != "NoLogicAvailableError" or not l.quantifier_free:
+                ctx.report_s({"oracle": "quantified-version", "axiom": "exception", "error": o[1]},
+                             "%s.get_quantified_version() raises %s" % (l.name, o[1]),
+                             {"kind": "order", "logics": [list(lkey(l))]})
+            continue
+        q = o[1]
+        if q.quantifier_free or not (l <= q):
+            ctx.report_s({"oracle": "quantified-version", "axiom": "spec"},
+                         "%s.get_quantified_version() = %s is not a quantified logic above it" % (l.name, q.name),
+                         {"kind": "order", "logics": [list(lkey(l)), list(lkey(q))]})
+
 # ------------------------------------------------------------------------------------------------- detection
 ARITH_OPS = {op.PLUS, op.MINUS, op.TIMES, op.DIV, op.POW, op.LE, op.LT}
 INT_RESULT = {op.STR_LENGTH, op.STR_INDEXOF, op.STR_TO_INT, op.BV_TONATURAL}
@@ -819,7 +904,9 @@ def node_sort(n, memo):
         r = REAL
     elif t in INT_RESULT:
         r = INT
-    elif t in (op.PLUS, op.MINUS, op.TIMES, op.DIV, op.POW):
+    elif t == op.POW:
+        r = REAL              # pySMT's typing of pow (finding F05), also the rank in Spec/HasType.lean
+    elif t in (op.PLUS, op.MINUS, op.TIMES, op.DIV):
         r = node_sort(n.arg(0), memo)
     elif t == op.ITE:
         r = node_sort(n.arg(1), memo)
@@ -911,6 +998,61 @@ def features(f):
             need.setdefault("nonlinear", "op:POW")
         stack.extend(n.args())
     return need, quant, extra
+
+
+DL_ARITH = {op.PLUS, op.MINUS, op.TIMES, op.DIV, op.POW, op.TOREAL}
+
+
+def signed_leaves(t, sign, out):
+    if t.node_type() == op.MINUS and len(t.args()) == 2:
+        signed_leaves(t.arg(0), sign, out)
+        signed_leaves(t.arg(1), not sign, out)
+    elif t.node_type() not in (op.INT_CONSTANT, op.REAL_CONSTANT):
+        out.append((t, sign))
+
+
+def difference_constraint(l, r):
+    ls = []
+    signed_leaves(l, True, ls)
+    signed_leaves(r, False, ls)
+    pos = [t for t, s in ls if s]
+    neg = [t for t, s in ls if not s]
+    p2 = list(pos)
+    for t in neg:
+        if t in p2:
+            p2.remove(t)
+    n2 = list(neg)
+    for t in pos:
+        if t in n2:
+            n2.remove(t)
+    return len(p2) <= 1 and len(n2) <= 1
+
+
+def not_dl_reason(f, kind):
+    """None when `f` is in difference logic over the sort `kind` (INT or REAL) by the definition of
+    lean/PySMT/Spec/Features.lean (`isDL`), otherwise why not"""
+    memo = {}
+    stack = [(f, False)]
+    seen = set()
+    while stack:
+        n, inside = stack.pop()
+        if (id(n), inside) in seen:
+            continue
+        seen.add((id(n), inside))
+        t = n.node_type()
+        if t in DL_ARITH and node_sort(n, memo) == kind:
+            if t != op.MINUS:
+                return "op:" + op.op_to_str(t)
+            if not inside:
+                return "minus-outside-atom"
+            stack.extend((a, True) for a in n.args())
+        elif t in (op.EQUALS, op.LE, op.LT) and n.args() and node_sort(n.arg(0), memo) == kind:
+            if len(n.args()) != 2 or not difference_constraint(n.arg(0), n.arg(1)):
+                return "atom-not-difference"
+            stack.extend((a, True) for a in n.args())
+        else:
+            stack.extend((a, False) for a in n.args())
+    return None
 
 
 def has_int_pow(f):
@@ -1065,6 +1207,22 @@ class Shapes:
         A(("pow-int", self.app(self.fRB, m.Pow(x, I(2)))))
         # difference logic shaped (not a covered feature, but must still be covered by the answer)
         A(("difference", m.LE(m.Minus(x, y), I(3))))
+        A(("difference", m.LE(x, y)))
+        A(("difference", m.Equals(m.Minus(x, y), I(-2))))
+        A(("difference", m.GT(m.Minus(x, m.Minus(I(5), I(2))), y)))
+        A(("difference", m.LE(m.Minus(self.app(self.fII, x), y), I(3))))
+        A(("difference", m.LE(R(3), m.Minus(r, s))))
+        A(("not-difference", m.LE(m.Minus(m.Minus(x, y), z), I(0))))
+        A(("not-difference", m.LE(m.Minus(x, I(3)), m.Minus(y, z))))
+        A(("not-difference", m.LE(m.Minus(x, y), z)))
+        A(("not-difference", m.LE(m.Minus(I(3), x), y)))
+        A(("not-difference", m.LT(m.Minus(m.Minus(r, s), m.Minus(s, r)), R(1))))
+        A(("not-difference", m.LE(self.app(self.fII, m.Minus(x, y)), I(3))))
+        A(("not-difference", m.LE(m.Ite(b, m.Minus(x, y), z), I(3))))
+        A(("not-difference", m.Equals(m.Select(self.aii, m.Minus(x, y)), I(3))))
+        A(("not-difference", m.LE(m.create_node(op.DIV, (r, R(2))), R(1))))
+        A(("not-difference", m.LE(m.Plus(x, y), I(3))))
+        A(("not-difference", m.LE(m.Times(I(2), x), y)))
         A(("difference", m.LT(m.Minus(r, s), R(3))))
         A(("linear", m.LE(m.Plus(x, y, I(1)), z)))
         A(("lira", m.LT(m.ToReal(x), r)))
@@ -1166,6 +1324,12 @@ def detect_check(ctx, env, tag, f, stats):
         return None
     hb = tbits(th)
     miss_t = missing("get_theory", hb, False, named_flags(hb))
+    dl_why = {"integer_difference": not_dl_reason(f, INT), "real_difference": not_dl_reason(f, REAL)}
+    for fl in ("integer_difference", "real_difference"):
+        if flag(hb, fl) and dl_why[fl]:
+            ctx.report_s({"oracle": "get_theory", "missing": "not-difference-logic", "via": dl_why[fl], "context": context},
+                         "get_theory(`%s`) claims %s, but the formula is not in difference logic (%s)" % (
+                             f.serialize()[:160], fl, dl_why[fl]), rp)
     if not wf_bits(hb):
         ctx.report_s({"oracle": "get_theory", "missing": "well-formed", "via": root},
                      "get_theory(`%s`) = %s is ill-formed" % (f.serialize()[:160], named_flags(hb)), rp)
@@ -1178,6 +1342,12 @@ def detect_check(ctx, env, tag, f, stats):
         lname = lg.name
         if not miss_t:
             missing("get_logic", tbits(lg.theory), lg.quantifier_free, lg.name)
+        for fl in ("integer_difference", "real_difference"):
+            if flag(tbits(lg.theory), fl) and dl_why[fl]:
+                ctx.report_s({"oracle": "get_logic", "missing": "not-difference-logic", "via": dl_why[fl],
+                              "context": context},
+                             "get_logic(`%s`) = %s, a difference logic, but the formula is not in difference logic (%s)" % (
+                                 f.serialize()[:160], lg.name, dl_why[fl]), rp)
         stats["logic_ok"] = stats.get("logic_ok", 0) + 1
     except NoLogicAvailableError:
         stats["no_logic"] = stats.get("no_logic", 0) + 1
@@ -1187,16 +1357,19 @@ def detect_check(ctx, env, tag, f, stats):
         ctx.report_s({"oracle": "get_logic", "missing": "exception", "via": type(e).__name__},
                      "get_logic(`%s`) raises %s" % (f.serialize()[:160], type(e).__name__), rp)
     # 3. the label a script gets
+    script_lo = None
     if env is get_env():
         try:
             with warnings.catch_warnings():
                 warnings.simplefilter("ignore")
                 sc = smtlibscript_from_formula(f)
             sl = sc.commands[0].args[0]
+            if isinstance(sl, PL.Logic):
+                script_lo = ("ok", sl)
             if isinstance(sl, PL.Logic) and not miss_t:
                 missing("set-logic", tbits(sl.theory), sl.quantifier_free, sl.name)
         except NoLogicAvailableError:
-            pass
+            script_lo = ("err", "NoLogicAvailableError")
         except Exception as e:
             ctx.report_s({"oracle": "set-logic", "missing": "exception", "via": type(e).__name__},
                          "smtlibscript_from_formula(`%s`) raises %s: %s" % (f.serialize()[:160], type(e).__name__, str(e)[:80]), rp)
@@ -1204,7 +1377,7 @@ def detect_check(ctx, env, tag, f, stats):
     ctx.count("detect_logic_" + lname)
     for ft in need:
         ctx.count("detect_feature_" + ft)
-    return (w, hb, core_bits, quant, lo)
+    return (w, hb, core_bits, quant, lo, script_lo)
 
 
 def detection(ctx, lean_caps):
@@ -1273,7 +1446,7 @@ def detection(ctx, lean_caps):
     # K for the detection model, when the driver has it
     if lean_caps and "theory" in lean_caps:
         b = Batch()
-        for f, (w, hb, nb, quant, lo) in kcases:
+        for f, (w, hb, nb, quant, lo, script_lo) in kcases:
             if w is None:
                 continue
             b.add("theory " + w, hb, "theory of " + f.serialize()[:200])
@@ -1286,6 +1459,12 @@ def detection(ctx, lean_caps):
                 has_pow = " pow " in (" " + w + " ")
                 b.add("fragment " + w, "false" if has_pow else "true", "inFragment of " + f.serialize()[:200])
                 ctx.count("detect_in_fragment" if not has_pow else "detect_out_of_fragment_pow")
+            if "scriptlogic" in lean_caps and script_lo is not None:
+                b.add("scriptlogic " + w, show_outcome(script_lo), "set-logic of the script of " + f.serialize()[:200])
+            if "isdl" in lean_caps:
+                b.add("isdl " + w, "%s %s" % ("true" if not_dl_reason(f, INT) is None else "false",
+                                              "true" if not_dl_reason(f, REAL) is None else "false"),
+                      "isDL int/real of " + f.serialize()[:200])
             if "sorted" in lean_caps:
                 # the hypotheses of detect_covers (Spec.HasType, no pow) hold for everything pysmt builds, except `pow`
                 b.add("sorted " + w, "false" if " pow " in (" " + w + " ") else "true",
@@ -1377,6 +1556,8 @@ def run(ctx):
             ctx.case(("combine", a, b) if a != b else None)
     # ---- selection
     selection(ctx, T, lean_ok)
+    quantified_version(ctx, T)
+    factory_cases(ctx, T, lean_ok and caps is not None and "factory" in caps)
     # ---- detection
     detection(ctx, caps)
 
@@ -1437,6 +1618,27 @@ def replay(ctx, rep):
         print("formula:", f.serialize())
         print("needs:", features(f), " theory:", named_flags(tbits(env.theoryo.get_theory(f))))
         detect_check(ctx, env, r.get("tag", "replay"), f, {})
+    elif k == "factory":
+        def lg(key):
+            n = T.named.get(key[0])
+            return n if n is not None and list(lkey(n)) == list(key) else logic_of(key)
+        classes = {nm: type("C13Stub_" + nm, (), {"LOGICS": [lg(x) for x in ls]}) for nm, ls in r["solvers"]}
+        fac = get_env().factory
+        fac.preferences["c13-stub"] = r["prefs"]
+        try:
+            o = outcome(lambda: fac._get_solver_class(solver_list=classes, solver_type="c13-stub",
+                                                     default_logic=lg(r["default"]), name=r["name"],
+                                                     logic=lg(r["logic"]) if r["logic"] else None))
+        finally:
+            del fac.preferences["c13-stub"]
+        if o[0] == "ok":
+            cls, L = o[1]
+            print("implementation:", [nm for nm in classes if classes[nm] is cls], L.name)
+            req = lg(r["logic"]) if r["logic"] else None
+            if not any(L is l for l in cls.LOGICS) or (req is not None and not (req <= L)):
+                ctx.report_s({"oracle": "factory", "axiom": "spec"}, "still wrong on replay", r)
+        else:
+            print("implementation:", o)
     elif k == "k-line":
         try:
             print("model now:", ctx.lean_run("C13", [r["request"]])[0], " recorded impl:", r["impl"])
